@@ -32,6 +32,9 @@ os.makedirs(WORK, exist_ok=True)
 
 import outrank.core_utils as cu  # noqa: E402
 
+sys.path.insert(0, os.path.dirname(os.path.abspath(__file__)))
+import impl_c16_scalegen as sg  # noqa: E402
+
 cr = None
 
 
@@ -246,6 +249,126 @@ def do_dispatch(c):
             setattr(cu, n, f)
 
 
+def do_seq(c):
+    """lines parsed one after the other in this process (call history matters for stateful parsers)"""
+    fw = {S(k): S(v) for k, v in c["fw"]} if c.get("fw") is not None else None
+    header = [S(h) for h in c["header"]]
+    rows = []
+    for src, line in zip(c["sources"], c["lines"]):
+        try:
+            row = cu.generic_line_parser(S(line), S(c["delim"]), types.SimpleNamespace(data_source=src), fw, header)
+            rows.append({"row": enc_row(row)})
+        except Exception as e:
+            rows.append({"err": err_name(e)})
+    return {"rows": rows}
+
+
+def confused_with(fmt, seed, n, got):
+    """index and text of the generated line whose cells equal the row that came back (None when there is none)"""
+    for j in range(n):
+        line, exp = sg.gen(fmt, seed, j)
+        if exp == got:
+            return {"index": j, "line": C(line), "source": sg.source_of(fmt, j)}
+    return None
+
+
+def do_scale(c, k):
+    """n DISTINCT generated lines through the real parser in this one process, judged against their known cells"""
+    global cr
+    fmt, seed, n = c["format"], c["seed"], c["n"]
+    bad = []
+    nbad = 0
+    out = {"n": n}
+    if fmt in ("csv", "tsv", "vw"):
+        args = {s: types.SimpleNamespace(data_source=s) for s in ("csv-raw", "ob-csv", "ob-raw-dump", "ob-vw")}
+        fw = dict((a, b) for a, b in sg.VW_FW) if fmt == "vw" else None
+        header = sg.VW_HEADER if fmt == "vw" else sg.CSV_HEADER
+        delim = {"csv": ",", "tsv": "\t", "vw": " "}[fmt]
+        for i in range(n):
+            line, exp = sg.gen(fmt, seed, i)
+            src = sg.source_of(fmt, i)
+            try:
+                got = cu.generic_line_parser(line, delim, args[src], fw, header)
+                if fmt == "csv" and i % 16 == 0 and cu.parse_ob_csv_line(line, delim) != got:
+                    got = {"err": "generic_line_parser and parse_ob_csv_line disagree"}
+            except Exception as e:
+                got = {"err": err_name(e)}
+            if got != exp:
+                nbad += 1
+                if len(bad) < 3:
+                    bad.append({"index": i, "source": src, "line": C(line), "got": got if isinstance(got, dict) else enc_row(got),
+                                "expected": enc_row(exp), "raw_got": got})
+    else:                                       # one streamed file through the loop
+        if cr is None:
+            import outrank.core_ranking as cr_
+            cr = cr_
+        d = os.path.join(WORK, "scale%d" % k)
+        os.makedirs(d, exist_ok=True)
+        path = os.path.join(d, "data.csv")
+        with open(path, "w", encoding="utf-8", newline="") as f:
+            f.write(",".join(sg.CSV_HEADER) + "\n")
+            for i in range(n):
+                f.write(sg.gen("stream", seed, i)[0])
+        state = {"i": 0, "rows": 0, "batches": []}
+
+        def next_expected():
+            while state["i"] < n:
+                i = state["i"]
+                state["i"] += 1
+                line, exp = sg.gen("stream", seed, i)
+                if exp is not None:
+                    return i, line, exp
+            return None, None, None
+
+        def recorder(line_tmp_storage, numeric_column_types, args_, cpu_pool, column_descriptions, logger_, pbar):
+            nonlocal nbad
+            state["batches"].append(len(line_tmp_storage))
+            for row in line_tmp_storage:
+                i, line, exp = next_expected()
+                state["rows"] += 1
+                if row != exp:
+                    nbad += 1
+                    if len(bad) < 3:
+                        bad.append({"index": i, "source": "csv-raw", "line": None if line is None else C(line),
+                                    "got": enc_row(row) if isinstance(row, list) else repr(row),
+                                    "expected": None if exp is None else enc_row(exp), "raw_got": row})
+            return cu.BatchRankingSummary([], {}), {}, {}, {}
+
+        args = types.SimpleNamespace(data_source="csv-raw", subsampling=1, minibatch_size=c["bsize"], disable_tqdm="True",
+                                     heuristic="Constant")
+        logger = Logger()
+        orig = cr.compute_batch_ranking
+        cr.compute_batch_ranking = recorder
+        cwd = os.getcwd()
+        os.chdir(d)
+        try:
+            cr.estimate_importances_minibatches(path, sg.CSV_HEADER, None, set(), batch_size=c["bsize"], args=args,
+                                                data_encoding="utf-8", cpu_pool=None, delimiter=",",
+                                                feature_construction_mode=False, logger=logger)
+            out["err"] = None
+        except Exception as e:
+            out["err"] = err_name(e)
+        finally:
+            cr.compute_batch_ranking = orig
+            os.chdir(cwd)
+        inv = 0
+        for m in logger.msgs:
+            mm = re.search(r"(\d+)\s+invalid", m, re.I) or (re.search(r"(\d+)", m) if re.search("invalid", m, re.I) else None)
+            if mm:
+                inv = int(mm.group(1))
+                break
+        out["invalid"] = inv
+        out["rows_seen"] = state["rows"]
+        out["batches"] = state["batches"]
+        shutil.rmtree(d, ignore_errors=True)
+    for b in bad:
+        raw = b.pop("raw_got")
+        b["confused_with"] = confused_with(fmt, seed, n, raw) if isinstance(raw, list) else None
+    out["mismatches"] = nbad
+    out["first"] = bad
+    return out
+
+
 out = []
 for k, c in enumerate(payload["cases"]):
     kind = c["kind"]
@@ -268,6 +391,10 @@ for k, c in enumerate(payload["cases"]):
             r = {"codes": [i for i in range(0x110000) if chr(i).isspace()]}
         elif kind == "dispatch":
             r = do_dispatch(c)
+        elif kind == "seq":
+            r = do_seq(c)
+        elif kind == "scale":
+            r = do_scale(c, k)
         else:
             r = {"harness_err": "unknown kind"}
     except Exception as e:  # harness-side problem with this case (reported, not a verdict)
